@@ -408,6 +408,23 @@ func c12Gen(c *core.Ctx, r *core.Rng, builtin map[string]miniSchema, policy stri
 					plan.HTTP[cp.SchemaURL] = []simrt.Response{{Kind: "redirect", To: cp.SchemaURL}}
 				}
 			}
+			// decoys: the schema is looked for at template-schema and nowhere else. When it is not
+			// retrievable there, perfectly good schema documents at neighbouring names change nothing.
+			if cp.Avail != "ok" && cp.Avail != "redirect-ok" && r.Chance(1, 2) {
+				noQuery := strings.SplitN(cp.TemplURL, "?", 2)[0]
+				stem := strings.TrimSuffix(noQuery, filepath.Ext(noQuery))
+				dir := noQuery[:strings.LastIndex(noQuery, "/")+1]
+				for _, decoy := range []string{stem + ".schema.json", noQuery + ".schema", noQuery + ".json", dir + "schema.json", stem + ".json"} {
+					if decoy == cp.SchemaURL {
+						continue
+					}
+					if strings.HasPrefix(decoy, "file://") {
+						p.Aux[strings.TrimPrefix(decoy, "file://"+world.RootPlaceholder+"/")] = `{"type": "object"}`
+					} else {
+						plan.HTTP[decoy] = []simrt.Response{{Kind: "ok", Body: `{"type": "object"}`}}
+					}
+				}
+			}
 			pc.Set("template", cp.TemplURL)
 			pc.Set("formatter", "noop")
 			if cp.SchemaLoc == "explicit" {
